@@ -172,7 +172,7 @@ impl<'a> ListStylist<'a> {
         // If the back attachment appears before the comma, the comma is move to its front if multiline.
 
         for node in iterable {
-            let ctx = ctx.with_mode_if(Mode::Code, self.peek_hash);
+            let ctx = (ctx.with_mode_if(Mode::Code, self.peek_hash)).with_after_hash(self.peek_hash);
             if let Some(item_body) = item_checker(ctx, node) {
                 self.add_item(item_body);
                 self.peek_hash = false;
